@@ -61,6 +61,9 @@ type jxFacts struct {
 	CurlCallbackInLoop   bool     `json:"curlCallbackInLoop"`
 	CurlCallbackAfter    bool     `json:"curlCallbackAfterUnlock"`
 	CurlCallbackGuard    string   `json:"curlCallbackGuard"`
+	CurlHelperCall       string   `json:"curlHelperCall"`     // the top-level statement of Execute that runs the critical section (helper `do`)
+	CurlUnlockDeferred   bool     `json:"curlUnlockDeferred"` // the helper starts with `cu.mtx.Lock()`; `defer cu.mtx.Unlock()` and does no other locking
+	CurlExecuteReturn    string   `json:"curlExecuteReturn"`  // the single, last `return` of Execute itself
 	AccessorsUnderLock   []string `json:"accessorsUnderLock"` // accessor methods whose first statement takes the mutex
 	AccessorsWithoutLock []string `json:"accessorsWithoutLock"`
 }
@@ -181,6 +184,39 @@ func (p *pkgInfo) jxSpan(fd *ast.FuncDecl, recv string) jxLockSpan {
 			return true
 		})
 	}
+	return sp
+}
+
+// jxDeferSpan recognises a body that starts with `recv.mtx.Lock()` followed by `defer recv.mtx.Unlock()` and does no other
+// locking: the critical section is the rest of the body, and it is left with the mutex released on EVERY exit (return or panic).
+func (p *pkgInfo) jxDeferSpan(fd *ast.FuncDecl, recv string) jxLockSpan {
+	var sp jxLockSpan
+	nLock, nUnlock, nDefer := 0, 0, 0
+	ast.Inspect(fd.Body, func(n ast.Node) bool {
+		switch x := n.(type) {
+		case *ast.CallExpr:
+			switch p.jxSrc(x) {
+			case recv + ".mtx.Lock()":
+				nLock++
+			case recv + ".mtx.Unlock()":
+				nUnlock++
+			}
+		case *ast.DeferStmt:
+			nDefer++
+		case *ast.GoStmt:
+			nDefer += 100 // a goroutine started inside the critical section is outside this shape
+		}
+		return true
+	})
+	if len(fd.Body.List) < 2 || nLock != 1 || nUnlock != 1 || nDefer != 1 {
+		return sp
+	}
+	es, ok := fd.Body.List[0].(*ast.ExprStmt)
+	ds, ok2 := fd.Body.List[1].(*ast.DeferStmt)
+	if !ok || !ok2 || p.jxSrc(es.X) != recv+".mtx.Lock()" || p.jxSrc(ds.Call) != recv+".mtx.Unlock()" {
+		return sp
+	}
+	sp.lock, sp.unlock, sp.ok = ds.End(), fd.Body.Rbrace, true
 	return sp
 }
 
@@ -433,10 +469,34 @@ func extractJobs(repo string, fx *Facts) {
 		fx.miss("jobs.shell.Execute")
 	}
 
-	// ---- CurlJob.Execute
-	if fd := p.method("CurlJob", "Execute"); fd != nil && fd.Body != nil {
-		fx.Where["jobs.curl.Execute"] = p.pos(fd)
-		sp := p.jxSpan(fd, "cu")
+	// ---- CurlJob.Execute: `err := cu.do(ctx)`; callback; `return err` — the critical section is the helper `do`
+	// (`cu.mtx.Lock(); defer cu.mtx.Unlock(); …`), so that a panicking HTTPHandler / Body.Close cannot leave the mutex locked
+	if ex := p.method("CurlJob", "Execute"); ex != nil && ex.Body != nil {
+		fx.Where["jobs.curl.Execute"] = p.pos(ex)
+		fd := p.method("CurlJob", "do")
+		var helperStmt ast.Stmt
+		if s, t := p.jxTopLevelMatching(ex, `^err := cu\.do\(ctx\)$`); s != nil && p.jxCallSites(ex, "cu.do", token.NoPos).n == 1 {
+			helperStmt, jf.CurlHelperCall = s, t
+		}
+		exLocks := 0 // Execute itself must not touch the mutex
+		ast.Inspect(ex.Body, func(n ast.Node) bool {
+			if c, ok := n.(*ast.CallExpr); ok && strings.Contains(p.jxSrc(c.Fun), ".mtx.") {
+				exLocks++
+			}
+			return true
+		})
+		if fd == nil || fd.Body == nil || helperStmt == nil || exLocks != 0 {
+			fx.miss("jobs.curl.do-helper")
+			fd = ex // read the remaining shapes off Execute itself (they will not have the deferred form)
+		}
+		if fd != ex {
+			fx.Where["jobs.curl.do"] = p.pos(fd)
+		}
+		sp := p.jxDeferSpan(fd, "cu")
+		jf.CurlUnlockDeferred = sp.ok && fd != ex
+		if !jf.CurlUnlockDeferred {
+			fx.miss("jobs.curl.deferred-unlock")
+		}
 		// the status test
 		found := 0
 		for _, s := range fd.Body.List {
@@ -516,9 +576,32 @@ func extractJobs(repo string, fx *Facts) {
 			jf.CurlWithContext = t
 		}
 		jf.CurlStoreInLock = p.jxFieldWritesInside(fd, "cu", []string{"jobStatus", "response"}, sp)
+		if fd != ex { // … and Execute itself assigns no field of the job
+			ast.Inspect(ex.Body, func(n ast.Node) bool {
+				if as, ok := n.(*ast.AssignStmt); ok {
+					for _, l := range as.Lhs {
+						if strings.HasPrefix(p.jxSrc(l), "cu.") {
+							jf.CurlStoreInLock = false
+						}
+					}
+				}
+				return true
+			})
+		}
 		jf.CurlReturn = jxLastReturn(p, fd)
-		cs := p.jxCallSites(fd, "cu.callback", sp.unlock)
-		jf.CurlCallbackSites, jf.CurlCallbackInLoop, jf.CurlCallbackAfter, jf.CurlCallbackGuard = cs.n, cs.inLoop, cs.after && sp.ok && cs.topStmt, cs.guard
+		jf.CurlExecuteReturn = jxLastReturn(p, ex)
+		// the callback: one site, in Execute (none in the helper), after the statement that runs the helper — the helper has
+		// released the mutex when it returns
+		after := token.Pos(1 << 40)
+		if helperStmt != nil {
+			after = helperStmt.End()
+		}
+		cs := p.jxCallSites(ex, "cu.callback", after)
+		inHelper := 0
+		if fd != ex {
+			inHelper = p.jxCallSites(fd, "cu.callback", token.NoPos).n
+		}
+		jf.CurlCallbackSites, jf.CurlCallbackInLoop, jf.CurlCallbackAfter, jf.CurlCallbackGuard = cs.n+inHelper, cs.inLoop, cs.after && sp.ok && cs.topStmt && helperStmt != nil && inHelper == 0, cs.guard
 	} else {
 		fx.miss("jobs.curl.Execute")
 	}
@@ -599,7 +682,10 @@ func renderJobs(fx *Facts) string {
 	fmt.Fprintf(&b, "def curlCallbackSites : Nat := %d\n", jf.CurlCallbackSites)
 	fmt.Fprintf(&b, "def curlCallbackInLoop : Bool := %s\n", jxLeanBool(jf.CurlCallbackInLoop))
 	fmt.Fprintf(&b, "def curlCallbackAfterUnlock : Bool := %s\n", jxLeanBool(jf.CurlCallbackAfter))
-	fmt.Fprintf(&b, "def curlCallbackGuard : String := %s\n\n", leanStr(jf.CurlCallbackGuard))
+	fmt.Fprintf(&b, "def curlCallbackGuard : String := %s\n", leanStr(jf.CurlCallbackGuard))
+	fmt.Fprintf(&b, "def curlHelperCall : String := %s\n", leanStr(jf.CurlHelperCall))
+	fmt.Fprintf(&b, "def curlUnlockDeferred : Bool := %s\n", jxLeanBool(jf.CurlUnlockDeferred))
+	fmt.Fprintf(&b, "def curlExecuteReturn : String := %s\n\n", leanStr(jf.CurlExecuteReturn))
 	fmt.Fprintf(&b, "/-- accessor methods that start with `mtx.(R)Lock(); defer mtx.(R)Unlock()` -/\ndef accessorsUnderLock : List String := %s\n", leanStrList(jf.AccessorsUnderLock))
 	fmt.Fprintf(&b, "def accessorsWithoutLock : List String := %s\n", leanStrList(jf.AccessorsWithoutLock))
 	b.WriteString("\nend Generated.Jobs\n")
